@@ -1182,6 +1182,10 @@ class ServiceInstance:
                 self._send_offer(stop=True)
 
     def _send_offer(self, remote: _T_OPT_SOCKADDR = None, stop: bool = False) -> None:
+        if not stop and self._task is None:
+            # delayed answer to a FindService that was scheduled before stop():
+            # nothing may follow the StopOffer
+            return
         entry = self.service.create_offer_entry(
             self.timings.ANNOUNCE_TTL if not stop else 0
         )
